@@ -229,7 +229,7 @@ def _generic_pmap(task, values, task_args, task_kwargs, reduce_func,
                     # space and time available, add tasks
                     value = values[i]
                     future = executor.submit(
-                        task, *((value,) + task_args), **task_kwargs,
+                        task, value, *task_args, **task_kwargs,
                     )
                     # small hack to avoid add_done_callback not supporting
                     # extra arguments and closures inside loops retaining
